@@ -148,6 +148,11 @@ def random_case(rng: random.Random):
     regs = [[t[0] * U, t[1] * U, t[2] * U, t[3] * U, t[4]] for t in d["regs"]]
     W, H = d["dw"] * U, d["dh"] * U
     mods = []
+    if rng.random() < 0.4:
+        # a module covering the whole die (or its left / lower half): some cells are then COMPLETELY covered while
+        # other modules overlap them too -- overlapping modules are in the quantifier
+        big = rng.choice([[0, 0, W, H], [0, 0, 16 * (W // 32), H], [0, 0, W, 16 * (H // 32)]])
+        mods.append([rng.choice(["soft", "hard"]), [big]])
     for _ in range(rng.randint(1, 4)):
         kind = rng.choice(["soft", "soft", "hard", "softsq"])
         if kind == "softsq":
